@@ -27,7 +27,9 @@ type C01Cfg struct {
 	Threads []string `json:"threads"` // one op per thread: W<b> Wu R<b> Ru Snap Rm Revert Reload ULM Resize ModeWO Close
 }
 
-func (c C01Cfg) String() string { return fmt.Sprintf("%s ops=%s", c.Name, strings.Join(c.Threads, "||")) }
+func (c C01Cfg) String() string {
+	return fmt.Sprintf("%s ops=%s", c.Name, strings.Join(c.Threads, "||"))
+}
 
 const c01Blocks = 3
 
@@ -117,11 +119,16 @@ func (x *c01Inst) calls(k int, op string) []func() string {
 	case op == "ULM":
 		// the epilogue of a rebuild: reload without preload, then merge the preloaded map
 		return []func() string{
-			func() string { s.SetPreload(false); err := s.Reload(); s.SetPreload(true); return "ULM.reload:" + e(err) },
+			func() string {
+				s.SetPreload(false)
+				err := s.Reload()
+				s.SetPreload(true)
+				return "ULM.reload:" + e(err)
+			},
 			func() string { return "ULM.update:" + e(s.UpdateLUNMap()) },
 		}
 	case op == "Resize":
-		return []func() string{func() string { return op + ":" + e(s.Resize(fmt.Sprint((c01Blocks + 1) * 4096))) }}
+		return []func() string{func() string { return op + ":" + e(s.Resize(fmt.Sprint((c01Blocks+1)*4096))) }}
 	case op == "ModeWO":
 		return []func() string{func() string { return op + ":" + e(s.SetReplicaMode("WO")) }}
 	case op == "Close":
